@@ -2,6 +2,7 @@
 
 import ast
 from collections.abc import Awaitable, Callable
+import copy
 import logging
 import os
 from types import ModuleType
@@ -57,7 +58,9 @@ class GlobalContext:
             #
             self.global_sym_table["hass"] = Function.hass
         if app_config:
-            self.global_sym_table["pyscript.app_config"] = app_config.copy()
+            # a deep copy: what the app does with its config must not change the copy that
+            # reload compares with the yaml configuration
+            self.global_sym_table["pyscript.app_config"] = copy.deepcopy(app_config)
 
     def trigger_register(self, func: EvalFunc) -> bool:
         """Register a trigger function; return True if start now."""
